@@ -134,11 +134,12 @@ func vfCoreGrid(full bool, K int, fates []int) []vfNamedCfg {
 }
 
 func vfParams(c vfSimCfg) map[string]any {
-	return map[string]any{"mode": c.Mode, "stream": c.Stream, "snd_wnd": c.SndWnd, "rcv_wnd": c.RcvWnd, "mtu": c.Mtu, "nodelay": c.NoDelay,
+	return map[string]any{"fates_from_datagram": c.FateFrom, "mode": c.Mode, "stream": c.Stream, "snd_wnd": c.SndWnd, "rcv_wnd": c.RcvWnd, "mtu": c.Mtu, "nodelay": c.NoDelay,
 		"delay_ms": c.Delay, "writes": c.Writes, "K": c.K, "fates": len(c.Fates), "write_delay": c.WriteDelay, "ack_nodelay": c.AckNoDelay}
 }
 
 var vfAllFates = []int{vfDeliver, vfDrop, vfDup, vfReorder, vfLate}
+var vfTimerFates = []int{vfDeliver, vfDrop, vfRaceRto, vfReorder}
 
 func vfRunGrid(c *hx.Ctx, grid []vfNamedCfg, owners ...string) {
 	hx.NoCache = true
@@ -291,6 +292,18 @@ func vfC04honest(c *hx.Ctx) {
 							Delay: 10, HorizonMs: 600000, PauseAfter: after, PauseMs: 900, K: K, Fates: vfAllFates}
 						cf.Writes[0] = []int{16, 16, 16, 16, 16, 16, 16, 16, 16, 16}
 						grid = append(grid, vfNamedCfg{fmt.Sprintf("asym/%s/snd_wnd=%d/rcv_wnd=%d/nc=%d/pause-after=%d", mode, sw, w, nc, after), cf})
+						if after == -1 && nc == 0 {
+							// warmed-up connection (congestion window open): faults start after the first datagrams
+							for _, from := range []int{8, 14} {
+								wf := cf
+								wf.Fates = vfTimerFates
+								wf.K = K + 1
+								wf.FateFrom = from
+								wf.Writes[0] = []int{16, 16, 16, 16, 16, 16, 16, 16, 16, 16, 16, 16, 16, 16}
+								wf.WriteGapMs = 25
+								grid = append(grid, vfNamedCfg{fmt.Sprintf("asym/%s/snd_wnd=%d/rcv_wnd=%d/nc=%d/warm-from-%d", mode, sw, w, nc, from), wf})
+							}
+						}
 						if after == -1 {
 							// application-limited sender: new data keeps arriving while a loss is being repaired
 							cf.WriteGapMs = 130
@@ -299,6 +312,20 @@ func vfC04honest(c *hx.Ctx) {
 						}
 					}
 				}
+			}
+		}
+	}
+	// warmed-up connections with an open congestion window and plenty of data: faults (incl. an
+	// acknowledgement racing the retransmission timer) start after the first datagrams
+	for _, mode := range []string{"session", "update"} {
+		for _, nd := range [][4]int{{0, 10, 2, 0}, {1, 20, 2, 0}, {0, 40, 1, 0}} {
+			for _, from := range []int{10, 16, 22, 30} {
+				cf := vfSimCfg{Mode: mode, Stream: true, SndWnd: [2]int{8, 8}, RcvWnd: [2]int{8, 8}, Mtu: 40, NoDelay: nd,
+					Delay: 10, HorizonMs: 600000, PauseAfter: -1, K: K + 1, Fates: vfTimerFates, FateFrom: from}
+				for i := 0; i < 24; i++ {
+					cf.Writes[0] = append(cf.Writes[0], 16)
+				}
+				grid = append(grid, vfNamedCfg{fmt.Sprintf("warm/%s/wnd=8/nodelay=%v/faults-from-datagram-%d", mode, nd, from), cf})
 			}
 		}
 	}
